@@ -64,6 +64,23 @@ def main(ctx):
     loops = cases(ctx, 'loops')
     cases(ctx, 'loops_unfixed', expect='LoopProgress')
     ctx.require(len(loops) == 120, f'loop cases: {len(loops)}')
+    # the key-list loop of the client's hostkeys-00 handler, on the real code
+    from harness.drivers import countloops as CL0
+    for loop_name, p_, a_ in loops:
+        if loop_name != 'keylist':
+            continue
+        (outcome, detail, secs), exc = CL0.hostkeys_tail(p_, a_)
+        ctx.count(('loop-keylist', p_, a_), nontrivial=a_ > 0)
+        sig = {'module': 'Loops', 'loop': 'keylist', 'p': p_, 'avail': a_}
+        rep_ = {'kind': 'keylist', 'p': p_, 'avail': a_}
+        if outcome == 'hang' or secs > 1.5:
+            ctx.violation(sig, f'hostkeys-00 key list with {a_} trailing '
+                          f'byte(s) (parameter {p_}): {outcome} {detail} '
+                          f'({secs:.1f} s)', replay=rep_)
+        if exc:
+            ctx.violation(dict(sig, loop_exc=True),
+                          f'hostkeys-00 key list ({p_}, {a_}): exception '
+                          f'reached the event loop: {exc[0]}', replay=rep_)
     # ---- count-prefixed lists ----
     from harness.drivers import countloops as CL
     counts = cases(ctx, 'counts', invariants=('Emit', 'CountBounded'))
